@@ -609,6 +609,11 @@ fn mutations(b: &Base, r: &mut Rng, budget: usize, exhaustive_bits: bool, out: &
     out.push(vcase(b, "valid".into(), bytes.clone()));
     // --- the acceptance policy as the application would set it: exactly the options of the honest proof
     if let Case::V(mut c) = vcase(b, "valid:optionset".into(), bytes.clone()) { c.policy = Some(b.opts); out.push(Case::V(c)); }
+    // ... and a policy that does not list them (one more / one fewer query)
+    for d in [1i16, -1] {
+        let q = b.opts[0] as i16 + d;
+        if q >= 1 && q <= 255 { if let Case::V(mut c) = vcase(b, format!("valid:optionset-mismatch{:+}", d), bytes.clone()) { let mut o = b.opts; o[0] = q as u8; c.policy = Some(o); out.push(Case::V(c)); } }
+    }
     // --- 0. element level: non-canonical encodings of ONE base-field word in every element-bearing component; empty FRI layers
     for m in noncanonical_mutants(bytes, &b.fld, (b.opts[3] as usize).max(1), &b.hsh) { out.push(vcase(b, m.label(), m.bytes)); }
     for (lbl, m) in empty_layer_mutants(bytes, &lay) { out.push(vcase(b, lbl, m)); }
@@ -620,6 +625,11 @@ fn mutations(b: &Base, r: &mut Rng, budget: usize, exhaustive_bits: bool, out: &
                 let orig = rd(bytes, p, w).unwrap() as u64;
                 for v in [0u64, orig.wrapping_sub(1), orig + 1] { if v != orig { let mut m = bytes.clone(); set_le(&mut m, p, w, v); out.push(vcase(b, format!("lenfield:{}={}", s.name, v), m)); } }
             }
+        }
+        // digests cut inside a limb (the Rescue digest readers read limb by limb), prefix rewritten
+        for s in lay.segs.iter().filter(|s| s.name == "commitments" || s.name.ends_with(".paths")) {
+            let body = &bytes[s.start..s.end];
+            for k in [1usize, 9, 17, 25] { if body.len() > k { out.push(vcase(b, format!("resize:{}-{}", s.name, k), splice(bytes, s, &body[..body.len() - k]))); } }
         }
         for _ in 0..budget.min(24) {
             let i = r.below(bytes.len() as u64) as usize;
